@@ -11,3 +11,5 @@ import Props.C10
 #print axioms C10.pass_all_or_nothing
 #print axioms C10.fix_history_initial_only
 #print axioms C10.fix_budget_zero
+#print axioms C10.sched_dup_reason
+#print axioms C10.sched_drop_reason_full
